@@ -146,7 +146,16 @@ pub fn towers(d: usize) -> Vec<R> {
     let mut out = vec![];
     for &tag in COMPOUND_TAGS.iter().chain(STATEMENT_TAGS.iter()) {
         let variants: Vec<Box<dyn Fn(R) -> R>> = match tag.shape() {
-            Shape::Set | Shape::Seq | Shape::Unary => vec![Box::new(move |x| R::node(tag, vec![x]))],
+            Shape::Unary => vec![Box::new(move |x| R::node(tag, vec![x]))],
+            Shape::Set | Shape::Seq => {
+                // the nested component alone, after a sibling, and before a sibling
+                let (o1, o2) = (other.clone(), other.clone());
+                vec![
+                    Box::new(move |x| R::node(tag, vec![x])),
+                    Box::new(move |x| R::node(tag, vec![o1.clone(), x])),
+                    Box::new(move |x| R::node(tag, vec![x, o2.clone()])),
+                ]
+            }
             Shape::Image => vec![
                 Box::new(move |x| R::image(tag, 0, vec![x])),
                 Box::new(move |x| R::image(tag, 1, vec![x])),
@@ -273,6 +282,7 @@ pub fn u_term(f: &F, tier: Tier) -> Vec<R> {
             out.extend(nested_variety(f));
         }
     }
+    out.extend(numeric_terms());
     out
 }
 
@@ -364,6 +374,7 @@ pub fn u_sent(f: &F) -> Vec<V> {
             }
         }
     }
+    out.extend(numeric_family());
     out
 }
 
@@ -391,6 +402,87 @@ pub fn u_sent_cover(f: &F) -> Vec<V> {
                 k += 1;
             }
         }
+    }
+    out
+}
+
+/// Unsigned magnitudes with every decimal digit count 1..=20: 10^k - 1, 10^k, 10^k + 1; the
+/// neighbours of the powers of two that bound the common integer and float types (2^7 .. 2^63,
+/// 2^53 + 1 is the first integer an f64 cannot hold); all ten digits; the maximum.
+pub fn magnitudes() -> Vec<u64> {
+    let mut v: Vec<u64> = vec![0, 1, 7, 9, 10, 1234567890, 9876543210];
+    for k in 1..=19u32 {
+        let p = 10u64.pow(k);
+        v.extend([p - 1, p, p + 1]);
+    }
+    for k in [7u32, 8, 15, 16, 24, 31, 32, 53, 63] {
+        let p = 1u64 << k;
+        v.extend([p - 1, p, p + 1]);
+    }
+    v.extend([u64::MAX - 1, u64::MAX]);
+    v.sort();
+    v.dedup();
+    v
+}
+
+/// floats in [0, 1] with every count of significant decimal digits 1..=17 and every decimal
+/// exponent down to the subnormals
+pub fn digit_floats() -> Vec<f64> {
+    let mut v = vec![];
+    let mut s = String::from("0.");
+    for k in 1..=17 {
+        s.push(char::from(b'0' + (k % 10) as u8));
+        v.push(s.parse::<f64>().unwrap());
+    }
+    for k in [1, 2, 3, 4, 5, 6, 7, 8, 9, 10, 15, 16, 17, 20, 22, 23, 100, 300, 307, 308, 310, 323] {
+        v.push(format!("1e-{k}").parse::<f64>().unwrap());
+        v.push(format!("9.5e-{k}").parse::<f64>().unwrap());
+    }
+    v.extend([0.25, 0.75, 0.125, 0.2, 0.7, 0.99, 0.999999, 1.0 - 1e-9, 1.0 - 1e-12]);
+    v
+}
+
+/// terms around every magnitude: the bare interval and the interval between two events
+pub fn numeric_terms() -> Vec<R> {
+    let mut out = vec![];
+    for m in magnitudes() {
+        out.push(R::interval(m as usize));
+        out.push(R::node(Tag::SeqConj, vec![R::word("a"), R::interval(m as usize), R::word("b1")]));
+    }
+    out
+}
+
+/// sentences / tasks around every signed magnitude as a fixed stamp and every digit float in
+/// each numeric slot (single truth, both truth positions, each budget position)
+pub fn numeric_family() -> Vec<V> {
+    let mut out = vec![];
+    let a = || R::word("a");
+    let mut times: Vec<isize> = vec![isize::MIN, isize::MIN + 1];
+    for m in magnitudes() {
+        if m <= isize::MAX as u64 {
+            times.push(m as isize);
+            times.push(-(m as isize));
+        }
+    }
+    times.sort();
+    times.dedup();
+    for t in times {
+        out.push(V { term: a(), punct: Some(P::Judgement), stamp: St::Fixed(t), truth: vec![], budget: None });
+        out.push(V { term: a(), punct: Some(P::Goal), stamp: St::Fixed(t), truth: vec![1.0, 0.9], budget: Some(vec![0.5]) });
+        out.push(V { term: a(), punct: Some(P::Quest), stamp: St::Fixed(t), truth: vec![], budget: Some(vec![]) });
+    }
+    for x in digit_floats() {
+        let mk = |truth: Vec<f64>, budget: Option<Vec<f64>>| V { term: R::word("a"), punct: Some(P::Judgement), stamp: St::Eternal, truth, budget };
+        out.push(mk(vec![x], None));
+        out.push(mk(vec![x, 0.5], None));
+        out.push(mk(vec![0.5, x], None));
+        out.push(mk(vec![], Some(vec![x])));
+        out.push(mk(vec![], Some(vec![0.5, x])));
+        out.push(mk(vec![], Some(vec![0.5, 0.5, x])));
+        out.push(mk(vec![x, x], Some(vec![x, x, x])));
+    }
+    for m in magnitudes() {
+        out.push(V { term: R::interval(m as usize), punct: Some(P::Judgement), stamp: St::Fixed(-1), truth: vec![1.0], budget: None });
     }
     out
 }
